@@ -222,6 +222,7 @@ func main() {
 		{"once h2 (fixed component)", OpOnce2Fixed, []string{"h:2"}},
 		{"class={[]KeyValue[CSSClass,bool]{KV(c2,true),KV(c1,false)}}", OpClassKVSlice, []string{C2}},
 		{"class={KV(c2,false),plain,Classes(c2)} (switched off, then on: the last setting counts)", OpClassOffOn, []string{C2}},
+		{"class={KV(c2 as ComponentCSSClass,true),KV(c1 as ComponentCSSClass,false)}", OpClassKVComp, []string{C2}},
 	}
 	ops := append([]op{}, base...)
 	// the same uses through wrapper components, child blocks and repeated in one component
